@@ -106,13 +106,13 @@ CHECKS = {
 EXTRA = {
     'C01': ' A fifth lemma, L-inst, covers terms whose occurrences of one metavariable carry different constraint annotations: an accepted Instantiate (partial or total, schematic plugs, ids in either order) respects the constraints of every occurrence and yields the textbook instance. L-inst also requires that an accepted instance needs no renaming (no capture by the textbook), on a dedicated level with binder plugs; debug_assert! is modelled as a no-op (release semantics).',
     'C02': ' One-rule modules also instantiate axioms that contain pending substitutions (the plug alone may mention the instantiated metavariable). Known-finding signatures carry an independent verdict (the documented machine on the toolkit\'s own tracked term; the textbook on the substitution), so a rejection of a well-formed term is never counted under a known finding. The look-alike macro step is part of the call sequences.',
-    'C03': ' Import graphs also: transitive import through an axiom-less module, module filled after it was imported; axioms containing partial instantiations in any key order; the expected publication is built from the harness\'s own lists, never read back from the module objects. Concrete (not symbolic) boundary tests: 256/257/300 symbols, and the memoisation plan around the 256 memory slots.',
+    'C03': ' Import graphs also: transitive import through an axiom-less module, module filled after it was imported; axioms containing partial instantiations in any key order; the expected publication is built from the harness\'s own lists, never read back from the module objects. Concrete (not symbolic) boundary tests: 256/257/300 symbols, and the memoisation plan around the 256 memory slots. Declared axioms include a metavariable whose only constraint list is app_ctx_holes.',
     'C04': ' Loads use the label the toolkit\'s own callers pass (str(term)); a macro step saves two different terms that print alike and loads both. Instantiate is also attempted with one key more than there are plugs (the toolkit has to refuse).',
-    'C05': ' The mutated programs include one with the same claim twice and one with a mu over a pending element substitution.',
+    'C05': ' The mutated programs include one with the same claim twice and one with a mu over a pending element substitution. Also one where an inner mu re-binds the set variable of the outer mu on the left of an implication.',
     'C06': ' Full-profile levels (every constructor, both kinds of variable in pattern and value) run in both tiers; on the Python side the judgement is also taken after the same judgement on sibling patterns (other constructors, shifted ids, rotated notation keys, flipped arguments), in every rotation. Two stacked pending substitutions on a constrained metavariable are judged for all five judgements.',
-    'C07': ' Also: the Quantifier schema instantiated with binder-notation values, and generalization after the same rule was applied to sibling premises (an asymmetric binder notation with both key orders). A pending set-variable substitution is instantiated with values that contain binders of both kinds.',
+    'C07': ' Also: the Quantifier schema instantiated with binder-notation values, and generalization after the same rule was applied to sibling premises (an asymmetric binder notation with both key orders). A pending set-variable substitution is instantiated with values that contain binders of both kinds. A focused 5-node level has a pending ESubst over a metavariable carrying e_fresh in the consequent.',
     'C08': ' Whole modules go through ProofExp.serialize plain and optimised (the counting pass and the memoising serialiser share one claim list), plus a concrete test of the memoisation plan at the 256-slot boundary. Plugs include a pending set-variable substitution; the module levels include a transitive import.',
-    'C09': ' History levels ask one prover object several questions (the formula itself first or last, its negation, four fixed formulas; clause lists likewise) before the one that is checked. The two implication proofs returned by to_clauses are compared literally with the pattern of the returned clause list.',
+    'C09': ' History levels ask one prover object several questions (the formula itself first or last, its negation, four fixed formulas; clause lists likewise) before the one that is checked. The two implication proofs returned by to_clauses are compared literally with the pattern of the returned clause list. Single clauses of up to 4 literals over 3 variables go through the resolution kernel (two clauses of up to 3 in thorough).',
     'C11': ' History levels run the same operation on sibling patterns first (every rotation) and throw the results away.',
     'C12': ' Also a non-linear schema (phi0 -> phi0) against a pattern paired with its own expansion, and the whole battery after the same battery on sibling patterns.',
     'C13': ' Also: arbitrary (also unsolvable) two-equation systems for the soundness of match(); soundness and completeness after sibling problems were solved first, in every rotation. Completeness when one metavariable meets two spellings of one pattern (notation and expansion).',
